@@ -1,45 +1,40 @@
 """C09 — a WeakDom stays a well-formed forest.  C09.who (who may write the link fields), C09.link (link/unlink
-pairing on the MIR CFG), C09.acyc (same-DOM re-parenting needs an ancestor guard), C09.iter (BFS iterator)."""
+pairing on the MIR CFG), C09.acyc (same-DOM re-parenting needs an ancestor guard), C09.iter (BFS iterator).
+
+The pairing / ordering / domination rules are stated per *public API function* of rbx_dom_weak::dom, analysed with
+the module's private helpers spliced into its CFG (sa.inline): how the body is split into helpers is not part of
+the rule.  Rule instances are discovered by their trigger operation (a struct-literal Instance, an assignment to
+`.parent`, a removal from `instances`), not by function name; floors pin the number of instances confirmed by hand."""
+import re
+
 from sa import core, discipline as D
 from . import domutil as U
 from .domutil import DOM
 
-# field -> {(function, mutation class): reason}
-WHO = {
-    U.F_CHILDREN: {
-        (DOM + "WeakDom::insert::insert", "structural:push"): "append the new child to its parent",
-        (DOM + "WeakDom::destroy", "structural:retain"): "unlink from old parent",
-        (DOM + "WeakDom::transfer", "structural:retain"): "unlink from old parent",
-        (DOM + "WeakDom::transfer", "structural:push"): "link under the destination parent",
-        (DOM + "WeakDom::transfer_within", "structural:retain"): "unlink from old parent",
-        (DOM + "WeakDom::transfer_within", "structural:push"): "link under the new parent",
-    },
-    U.F_PARENT: {
-        (DOM + "WeakDom::transfer", "assign"): "moved root gets the destination parent",
-        (DOM + "WeakDom::transfer_within", "assign"): "moved root gets the new parent",
-    },
+# field -> operation classes that may be applied to it (by any function of the owning module)
+ALLOWED_OPS = {
+    U.F_CHILDREN: {"structural:push": "append a child", "structural:retain": "unlink a child"},
+    U.F_PARENT: {"assign": "re-parent"},
     U.F_REFERENT: {},
-    U.F_INSTANCES: {
-        (DOM + "WeakDom::inner_insert", "structural:insert"): "sole entry point into the instance map",
-        (DOM + "WeakDom::inner_remove", "structural:remove"): "sole exit from the instance map",
-        (DOM + "WeakDom::reserve", "capacity:reserve"): "capacity only",
-    },
-    U.F_UIDS: {
-        (DOM + "WeakDom::inner_insert", "structural:insert"): "records the id of the entering instance",
-        (DOM + "WeakDom::inner_remove", "structural:remove"): "frees the id of the leaving instance",
-    },
+    U.F_INSTANCES: {"structural:insert": "enter the instance map", "structural:remove": "leave the instance map", "capacity:reserve": "capacity only"},
+    U.F_UIDS: {"structural:insert": "record an id", "structural:remove": "free an id"},
     U.F_ROOT: {},
 }
-AGG_INSTANCE = {DOM + "WeakDom::insert::insert": "builds the Instance from its builder"}
-AGG_WEAKDOM = {DOM + "WeakDom::new": "construct", DOM + "WeakDom::from_raw": "construct (checks root and ids)",
-               "<rbx_dom_weak::dom::WeakDom as core::default::Default>::default": "construct"}
+OWNER_MODULE = DOM   # rbx_dom_weak::dom — the module that owns the forest invariant
+PUSH_RX = r"alloc::vec::Vec::<T, A>::push$"
+RETAIN_RX = r"alloc::vec::Vec::<T, A>::retain(_mut)?$"
+
+
+def in_owner(path):
+    return path.startswith(OWNER_MODULE) or path.startswith("<" + OWNER_MODULE)
 
 
 def rule_who(c, prog):
     R = "C09.who"
-    c.rule(R, "link fields Instance.{referent,parent,children} and WeakDom.{instances,root_ref,unique_ids} are mutated only by the confirmed (function, operation) pairs; element access via get_mut is listed separately")
-    muts = U.all_mutations(prog, list(WHO))
+    c.rule(R, "link fields Instance.{referent,parent,children} and WeakDom.{instances,root_ref,unique_ids} are mutated only inside rbx_dom_weak::dom, only through the confirmed operation classes (children: push/retain; parent: assign; instances: insert/remove/reserve; unique_ids: insert/remove; referent, root_ref: never after construction); no &mut to a link field escapes; Instance / WeakDom values are built only there; the fields are not pub")
+    muts = U.all_mutations(prog, list(ALLOWED_OPS))
     n = 0
+    seen_ops = set()
     for field, sites in sorted(muts.items()):
         for fn, cls, m in sites:
             if cls.startswith("element:"):
@@ -47,27 +42,29 @@ def rule_who(c, prog):
                 c.ok(R, f"{field}|{fn}|{cls}")
                 continue
             n += 1
-            if (fn, cls) in WHO[field]:
-                c.ok(R, f"{field}|{fn}|{cls}")
+            inst = f"{field}|{fn}|{cls}"
+            if not in_owner(fn):
+                c.violation(R, inst, f"{fn} mutates {field} ({cls}) outside {OWNER_MODULE[:-2]}: link bookkeeping can be bypassed", m["sp"], instance=inst)
+            elif cls not in ALLOWED_OPS[field]:
+                c.violation(R, inst, f"{fn} applies `{cls}` to {field}; the confirmed operations on this field are {sorted(ALLOWED_OPS[field]) or '(none: construction only)'} — any other operation can reorder, drop or duplicate links without the paired bookkeeping", m["sp"], instance=inst)
             else:
-                c.violation(R, f"{field}|{fn}|{cls}", f"{fn} mutates {field} ({cls}) — not one of the confirmed writers {sorted(set(f for f, _ in WHO[field])) or '(none: construction only)'}; link bookkeeping can be bypassed", m["sp"], instance=f"{field}|{fn}|{cls}")
-    # every confirmed writer must still exist (anchors)
-    have = {(field, fn, cls) for field, sites in muts.items() for fn, cls, _ in sites}
-    for field, tab in WHO.items():
-        for (fn, cls) in tab:
-            if (field, fn, cls) not in have:
-                c.violation(R, f"anchor|{field}|{fn}|{cls}", f"confirmed writer disappeared: {fn} no longer performs {cls} on {field} (table out of date or bookkeeping dropped)", "")
-    c.floor(R, n, 13, "link-field mutation sites")
+                seen_ops.add((field, cls))
+                c.ok(R, inst)
+    for field, ops in ALLOWED_OPS.items():
+        for cls in ops:
+            if (field, cls) not in seen_ops:
+                c.violation(R, f"anchor|{field}|{cls}", f"no `{cls}` on {field} anywhere in the workspace: the bookkeeping operation disappeared (or the analysis lost sight of it)", "")
+    c.floor(R, n, 8, "link-field mutation sites")
     # aggregates
     for path, fn in prog.fns.items():
         if fn.crate not in core.LIB_CRATES:
             continue
-        for adt, table in ((U.INST, AGG_INSTANCE), (U.WD, AGG_WEAKDOM)):
+        for adt in (U.INST, U.WD):
             for st in D.aggregates(fn, adt):
-                if path in table:
+                if in_owner(path):
                     c.ok(R, f"agg:{adt}|{path}")
                 else:
-                    c.violation(R, f"agg|{adt}|{path}", f"{path} constructs a {adt} value directly (struct literal) outside the confirmed constructors {sorted(table)}", st.get("sp", ""), instance=f"agg:{adt}|{path}")
+                    c.violation(R, f"agg|{adt}|{path}", f"{path} constructs a {adt} value directly (struct literal) outside {OWNER_MODULE[:-2]}", st.get("sp", ""), instance=f"agg:{adt}|{path}")
     # visibility: the link fields must not be pub
     for adt, fields in ((U.INST, ("referent", "parent", "children")), (U.WD, ("instances", "root_ref", "unique_ids"))):
         a = prog.adt(adt)
@@ -79,27 +76,52 @@ def rule_who(c, prog):
                     c.ok(R, f"vis:{adt}.{f['name']}")
 
 
+def children_blocks(fn, rx):
+    muts = D.field_mutations(fn)
+    op = "retain" if "retain" in rx else "push"
+    return {i for i, cal, t in U.calls_in(fn, rx) if any(m["field"] == U.F_CHILDREN and op in m["how"] and m["sp"] == t.get("sp") for m in muts)}
+
+
+def link_triggers(fn, cfg):
+    """(block, stmt) of every parent-link site: a struct-literal Instance or an assignment to `.parent`"""
+    out = []
+    for i, bb in enumerate(cfg.blocks):
+        for st in bb["stmts"]:
+            if st["k"] == "assign" and (st.get("rk", "").startswith("agg:" + U.INST + "::") or D.last_field(st["lhs"]) == U.F_PARENT):
+                out.append((i, st))
+    return out
+
+
+def has_unlink_trigger(fn):
+    muts = D.field_mutations(fn)
+    return any((m["field"] == U.F_INSTANCES and U.classify(m["how"]) == "structural:remove") or (m["field"] == U.F_PARENT and m["how"] == "assign") for m in muts)
+
+
+def param_of(fn, op):
+    """index (1-based MIR local) of the API parameter an operand is copied/borrowed from, or None"""
+    r = U.local_root(fn, op, depth=12)
+    if r is None:
+        return None
+    l, proj = r
+    argc = fn.mir.get("argc") or 0
+    return l if 1 <= l <= argc and not proj else None
+
+
 def rule_link(c, prog):
     R = "C09.link"
-    c.rule(R, "every path that links an instance under a non-null parent pushes it onto that parent's children; every path that removes/re-parents an instance with a non-null old parent retains it out of the old parent's children; destroy/transfer work lists are extended with the children of each removed instance; the root is refused first")
-    # (a) link
-    for name in ("WeakDom::insert::insert", "WeakDom::transfer", "WeakDom::transfer_within"):
-        fn = prog.fn(DOM + name)
+    c.rule(R, "per public function of rbx_dom_weak::dom (private helpers inlined): every path from a parent-link site (struct-literal Instance / `.parent =`) to the normal return pushes onto the parent's children unless the parent is null; every function that removes an instance from the map or re-parents it retains it out of the old parent's children unless the old parent is null, before any push, guarded by nothing but `old_parent.is_some()`, with predicate `child != <moved referent>`; removal loops extend their work list with the removed instance's children; the root is refused before any mutation")
+    api = U.api_fns(prog)
+    n_link = n_unlink = 0
+    for path, fn in sorted(api.items()):
+        name = U.short_api(path)
         cfg = D.CFG(fn)
-        muts = D.field_mutations(fn)
-        push_blocks = {i for i, cal, t in U.calls_in(fn, r"alloc::vec::Vec::<T, A>::push$")
-                       if any(m["field"] == U.F_CHILDREN and m["how"].endswith("::push") and m["sp"] == t.get("sp") for m in muts)}
+        trig = link_triggers(fn, cfg)
+        push_blocks = children_blocks(fn, PUSH_RX)
+        retain_blocks = children_blocks(fn, RETAIN_RX)
         false_edges = {b for b, _ in U.is_some_false_targets(fn, cfg)}
-        # link sites: aggregate Instance (insert) or assignment to .parent
-        starts = []
-        for i, bb in enumerate(cfg.blocks):
-            for st in bb["stmts"]:
-                if st["k"] == "assign" and (st.get("rk", "").startswith("agg:" + U.INST + "::") or (D.last_field(st["lhs"]) == U.F_PARENT)):
-                    starts.append((i, st))
-        if not starts:
-            c.violation(R, f"link|{name}|anchor", f"{name}: no parent-link site (struct literal / `.parent =`) found", fn.sp)
-            continue
-        for i, st in starts:
+        # (a) link
+        for i, st in trig:
+            n_link += 1
             inst = f"link:{name}"
             if not push_blocks:
                 c.violation(R, f"link|{name}|no-push", f"{name} sets an instance's parent but never pushes it onto the parent's children: the child is unreachable from its parent", st.get("sp", ""), instance=inst)
@@ -107,14 +129,10 @@ def rule_link(c, prog):
                 c.ok(R, inst)
             else:
                 c.violation(R, f"link|{name}|path", f"{name}: a path from the parent-link site to the normal return skips `children.push` (and is not the `parent.is_some() == false` path)", st.get("sp", ""), instance=inst)
-    # (b) unlink
-    for name in ("WeakDom::destroy", "WeakDom::transfer", "WeakDom::transfer_within"):
-        fn = prog.fn(DOM + name)
-        cfg = D.CFG(fn)
-        muts = D.field_mutations(fn)
-        retain_blocks = {i for i, cal, t in U.calls_in(fn, r"alloc::vec::Vec::<T, A>::retain(_mut)?$")
-                         if any(m["field"] == U.F_CHILDREN and "retain" in m["how"] and m["sp"] == t.get("sp") for m in muts)}
-        false_edges = {b for b, _ in U.is_some_false_targets(fn, cfg)}
+        if not has_unlink_trigger(fn):
+            continue
+        # (b) unlink
+        n_unlink += 1
         inst = f"unlink:{name}"
         if not retain_blocks:
             c.violation(R, f"unlink|{name}|no-retain", f"{name} never removes the instance from its old parent's children: the old parent keeps a dangling child", fn.sp, instance=inst)
@@ -122,100 +140,162 @@ def rule_link(c, prog):
             c.ok(R, inst)
         else:
             c.violation(R, f"unlink|{name}|path", f"{name}: a path to the normal return skips `children.retain` on the old parent although the old parent is non-null", fn.sp, instance=inst)
-        # the retained closure must compare against the moved referent: closure captures `referent`
-        clos = [n for n in core.walk_fn(fn) if n.get("k") == "Closure" and any(cap.get("name") == "referent" for cap in n.get("captures", []))]
-        ok = False
-        for n in clos:
-            b = core.strip(n["body"])
-            if b.get("k") == "Binary" and b["op"] == "!=":
-                ok = True
-        if ok:
+        # the retain predicate: closure `|child| child != <captured>`, the captured value being the moved referent
+        # (an API parameter of type Ref that is not the one stored into `.parent`)
+        dest_params = set()
+        for bb in cfg.blocks:
+            for st in bb["stmts"]:
+                if st["k"] == "assign" and D.last_field(st["lhs"]) == U.F_PARENT and st.get("ops"):
+                    pidx = param_of(fn, st["ops"][0])
+                    if pidx:
+                        dest_params.add(pidx)
+        pred_ok = bool(retain_blocks)
+        why = ""
+        for b in retain_blocks:
+            t = cfg.blocks[b]["term"]
+            clos_arg = t["args"][1] if len(t.get("args", [])) > 1 else None
+            cpath, caps = closure_of(fn, clos_arg)
+            cnode = closure_nodes(prog).get(cpath) if cpath else None
+            if cnode is None:
+                pred_ok, why = False, "retain predicate is not a closure literal"
+                continue
+            body = core.strip(cnode["body"])
+            while body.get("k") == "Block" and not body["b"]["stmts"] and "expr" in body["b"]:
+                body = core.strip(body["b"]["expr"])
+            if not (body.get("k") == "Binary" and body["op"] == "!="):
+                pred_ok, why = False, f"retain predicate is `{core.fingerprint(body, 4)}`, not `child != referent`"
+                continue
+            pidx = [param_of(fn, cp) for cp in caps]
+            if len(pidx) != 1 or pidx[0] is None or "referent::Ref" not in fn.mir["locals"][pidx[0]]:
+                pred_ok, why = False, "the value compared against is not the moved instance's referent parameter"
+            elif pidx[0] in dest_params:
+                pred_ok, why = False, "the retain compares against the destination parent, not the moved instance"
+        if pred_ok:
             c.ok(R, f"unlink-pred:{name}")
-        else:
-            c.violation(R, f"unlink|{name}|pred", f"{name}: the retain predicate is not `child != referent`", fn.sp, instance=f"unlink-pred:{name}")
-    # (b') unlink before link: with the same parent as source and destination, push-then-retain removes both entries
-    for name in ("WeakDom::transfer", "WeakDom::transfer_within"):
-        fn = prog.fn(DOM + name)
-        cfg = D.CFG(fn)
-        dom = cfg.dominators()
-        muts = D.field_mutations(fn)
-        retain_blocks = {i for i, cal, t in U.calls_in(fn, r"alloc::vec::Vec::<T, A>::retain(_mut)?$")}
-        push_blocks = {i for i, cal, t in U.calls_in(fn, r"alloc::vec::Vec::<T, A>::push$") if any(m["field"] == U.F_CHILDREN and m["how"].endswith("::push") and m["sp"] == t.get("sp") for m in muts)}
-        inst = f"unlink-before-link:{name}"
-        # no retain is reachable after a push
-        after_push = set()
-        for pb in push_blocks:
-            after_push |= cfg.reachable_from(pb) - {pb}
-        if retain_blocks and push_blocks and not (retain_blocks & after_push):
-            c.ok(R, inst)
-        else:
-            c.violation(R, f"order|{name}", f"{name}: the instance is pushed onto the new parent's children before it is retained out of the old parent's; when both are the same instance (re-appending under the current parent) the retain removes the fresh entry too and the child disappears from its parent", fn.sp, instance=inst)
-    # retain guard must be exactly `old parent is some`: an extra conjunct (e.g. `&& parent != dest`) skips the unlink while the push still happens
-    for name in ("WeakDom::destroy", "WeakDom::transfer", "WeakDom::transfer_within"):
-        fn = prog.fn(DOM + name)
-        for n in core.walk_fn(fn):
-            if n.get("k") == "If" and any(x.get("k") == "MethodCall" and x["m"] in ("retain", "retain_mut") for x in core.walk(n["t"])):
-                cnd = core.strip(n["c"])
-                inst = f"unlink-guard:{name}"
-                if cnd.get("k") == "MethodCall" and cnd["m"] == "is_some" and not cnd["args"]:
-                    c.ok(R, inst)
-                else:
-                    c.violation(R, f"unlink-guard|{name}", f"{name}: the unlink from the old parent is guarded by `{core.fingerprint(cnd, 5)}`, not just `old_parent.is_some()`: when the extra condition fails the instance stays listed by its old parent (listed twice after the push)", core.loc(n), instance=inst)
-    # (c) work lists
-    for name in ("WeakDom::destroy", "WeakDom::transfer"):
-        fn = prog.fn(DOM + name)
-        cfg = D.CFG(fn)
-        rem = {i for i, cal, t in U.calls_in(fn, r"WeakDom::inner_remove$")}
-        ext = U.calls_in(fn, r"VecDeque::<T, A>::extend$|<alloc::collections::vec_deque::VecDeque<T, A> as core::iter::traits::collect::Extend<.*>>::extend$")
+        elif retain_blocks:
+            c.violation(R, f"unlink|{name}|pred", f"{name}: {why}", fn.sp, instance=f"unlink-pred:{name}")
+        # (b') unlink before link
+        if push_blocks:
+            inst = f"unlink-before-link:{name}"
+            after_push = set()
+            for pb in push_blocks:
+                after_push |= cfg.reachable_from(pb) - {pb}
+            if retain_blocks and not (retain_blocks & after_push):
+                c.ok(R, inst)
+            else:
+                c.violation(R, f"order|{name}", f"{name}: the instance is pushed onto the new parent's children before it is retained out of the old parent's; when both are the same instance (re-appending under the current parent) the retain removes the fresh entry too and the child disappears from its parent", fn.sp, instance=inst)
+        # (c) work lists: a removal from the map inside a loop must extend the loop's work list
+        rem = U.mutation_blocks(fn, U.F_INSTANCES, r"::remove$")
         pops = {i for i, cal, t in U.calls_in(fn, r"VecDeque::<T, A>::pop_(front|back)$")}
-        inst = f"worklist:{name}"
-        in_loop = [i for i, cal, t in ext if any(p in cfg.reachable_from(i) and i in cfg.reachable_from(p) for p in pops)]
-        if rem and pops and in_loop:
-            c.ok(R, inst)
-        else:
-            c.violation(R, f"worklist|{name}", f"{name}: the removal loop does not extend its work list with the children of each removed instance (descendants would stay in the DOM with a dangling parent)", fn.sp, instance=inst)
-        # the extension source must be the removed instance's children
-        srcs = []
-        for n in core.walk_fn(fn):
-            if n.get("k") == "MethodCall" and n["m"] == "extend":
-                root, path = core.place_root(n["args"][0]) if n["args"] else (None, [])
-                srcs.append((root, tuple(p for p in path if not p.startswith("."))))
-        if srcs and all(r == "instance" and p[:1] == ("children",) for r, p in srcs):
-            c.ok(R, f"worklist-src:{name}")
-        else:
-            c.violation(R, f"worklist-src|{name}", f"{name}: work list is extended from {srcs}, expected the removed instance's `children`", fn.sp, instance=f"worklist-src:{name}")
-    # (e) root guard dominates every mutation
-    for name in ("WeakDom::destroy", "WeakDom::transfer", "WeakDom::transfer_within"):
-        fn = prog.fn(DOM + name)
-        cfg = D.CFG(fn)
+        looping_rem = {r for r in rem if any(p in cfg.reachable_from(r) and r in cfg.reachable_from(p) for p in pops)}
+        if looping_rem:
+            ext = U.calls_in(fn, r"VecDeque::<T, A>::(extend|push_back)$|<alloc::collections::vec_deque::VecDeque<T, A> as core::iter::traits::collect::Extend<.*>>::extend$")
+            in_loop = [i for i, cal, t in ext if any(p in cfg.reachable_from(i) and i in cfg.reachable_from(p) for p in pops)]
+            inst = f"worklist:{name}"
+            if in_loop:
+                c.ok(R, inst)
+            else:
+                c.violation(R, f"worklist|{name}", f"{name}: the removal loop does not extend its work list with the children of each removed instance (descendants would stay in the DOM with a dangling parent)", fn.sp, instance=inst)
+        # (e) root guard dominates every mutation
         dom = cfg.dominators()
         guards = []
-        for i, cal, t in U.calls_in(fn, r"<rbx_types::referent::Ref as core::cmp::PartialEq>::eq$|core::cmp::PartialEq::eq$|<rbx_types::referent::Ref as core::cmp::PartialEq>::ne$"):
-            roots = [U.local_root(fn, a) for a in t["args"]]
+        for i, cal, t in U.calls_in(fn, r"<rbx_types::referent::Ref as core::cmp::PartialEq>::(eq|ne)$|core::cmp::PartialEq::(eq|ne)$"):
+            roots = [U.local_root(fn, a, depth=12) for a in t["args"]]
             if any(r and U.F_ROOT in r[1] for r in roots):
                 guards.append(i)
-        mut_blocks = set()
-        for i, bb in enumerate(cfg.blocks):
-            t = bb["term"]
-            if t["k"] == "call" and (t.get("fn") or "").endswith(("inner_remove", "inner_insert", "get_mut", "::retain", "::push")):
-                mut_blocks.add(i)
+        mut_blocks = {i for i, cal, t in U.calls_in(fn, r"(HashMap::<K, V, S(, A)?>|HashSet::<T, S(, A)?>)::(remove|insert|get_mut)$|" + RETAIN_RX + "|" + PUSH_RX)}
         inst = f"rootguard:{name}"
         if guards and all(any(g in dom.get(b, ()) for g in guards) for b in mut_blocks if b in dom):
             c.ok(R, inst)
         else:
             c.violation(R, f"rootguard|{name}", f"{name}: the `referent == self.root_ref` refusal does not dominate every mutation (the root could be removed or re-parented)", fn.sp, instance=inst)
+    c.floor(R, n_link, 3, "parent-link sites in API functions (insert, transfer, transfer_within)")
+    c.floor(R, n_unlink, 3, "API functions that remove or re-parent (destroy, transfer, transfer_within)")
+    # HIR-level clauses, on whichever function of the module holds the construct
+    n_guard = n_src = 0
+    for path, fn in sorted(prog.fns.items()):
+        if fn.crate != "rbx_dom_weak" or not in_owner(path) or fn.body is None or fn.dk == "Closure" or "::test" in path:
+            continue
+        name = U.short_api(path)
+        for n in core.walk_fn(fn, into_closures=False):
+            # the unlink guard must be exactly `old parent is some`: an extra conjunct (e.g. `&& parent != dest`)
+            # skips the unlink while the push still happens
+            if n.get("k") == "If" and any(x.get("k") == "MethodCall" and x["m"] in ("retain", "retain_mut") and "children" in core.place_root(x["recv"])[1] for x in core.walk(n["t"], into_closures=False)):
+                cnd = core.strip(n["c"])
+                inst = f"unlink-guard:{name}"
+                n_guard += 1
+                if cnd.get("k") == "MethodCall" and cnd["m"] == "is_some" and not cnd["args"]:
+                    c.ok(R, inst)
+                else:
+                    c.violation(R, f"unlink-guard|{name}", f"{name}: the unlink from the old parent is guarded by `{core.fingerprint(cnd, 5)}`, not just `old_parent.is_some()`: when the extra condition fails the instance stays listed by its old parent (listed twice after the push)", core.loc(n), instance=inst)
+        # work-list source: a VecDeque extended inside a `while let Some(..) = q.pop_front()` loop that also removes
+        # instances must be extended from the removed instance's children
+        has_remove = any(x.get("k") == "MethodCall" and (core.callee(x) or "").endswith(("WeakDom::inner_remove",)) or (x.get("k") == "MethodCall" and x["m"] == "remove" and "instances" in core.place_root(x["recv"])[1]) for x in core.walk_fn(fn, into_closures=False))
+        if has_remove:
+            srcs = []
+            for n in core.walk_fn(fn, into_closures=False):
+                if n.get("k") == "MethodCall" and n["m"] == "extend" and "VecDeque" in (n["recv"].get("ty", "") + n["recv"].get("aty", "")):
+                    root, pth = core.place_root(n["args"][0]) if n["args"] else (None, [])
+                    srcs.append((root, tuple(p for p in pth if not p.startswith("."))))
+            if srcs:
+                n_src += 1
+                if all("children" in p[:1] for r, p in srcs):
+                    c.ok(R, f"worklist-src:{name}")
+                else:
+                    c.violation(R, f"worklist-src|{name}", f"{name}: work list is extended from {srcs}, expected the removed instance's `children`", fn.sp, instance=f"worklist-src:{name}")
+    c.floor(R, n_guard, 1, "guarded unlink sites")
+    c.floor(R, n_src, 2, "removal loops with a work list")
+
+
+_CLOSURES = {}
+
+
+def closure_nodes(prog):
+    """{closure def path: HIR Closure node} over rbx_dom_weak"""
+    if id(prog) not in _CLOSURES:
+        _CLOSURES.clear()
+        m = {}
+        for path, fn in prog.fns.items():
+            if fn.crate == "rbx_dom_weak" and fn.body is not None and fn.dk != "Closure":
+                for n in core.walk_fn(fn):
+                    if n.get("k") == "Closure" and n.get("cdef"):
+                        m[n["cdef"]] = n
+        _CLOSURES[id(prog)] = m
+    return _CLOSURES[id(prog)]
+
+
+def closure_of(fn, op):
+    """(closure fn path, [captured operands]) for the operand holding a closure value"""
+    if not op or op.get("k") != "place":
+        return None, []
+    l = op["l"]
+    for _ in range(6):
+        nxt = None
+        for bb in fn.mir["blocks"]:
+            for st in bb["stmts"]:
+                if st["k"] == "assign" and st["lhs"]["l"] == l and not st["lhs"].get("proj"):
+                    rk = st.get("rk", "")
+                    if rk.startswith("agg:closure:"):
+                        return rk[len("agg:closure:"):], list(st.get("ops") or [])
+                    if st.get("ops") and st["ops"][0].get("k") == "place":
+                        nxt = st["ops"][0]["l"]
+        if nxt is None:
+            return None, []
+        l = nxt
+    return None, []
 
 
 def rule_acyc(c, prog):
     R = "C09.acyc"
     c.rule(R, "a function that re-parents an instance within one DOM (assigns Instance.parent without inner_remove/inner_insert) must first establish that the new parent is not inside the moved subtree (an ancestor walk: a loop reading Instance.parent, dominating the assignment)")
-    for path, fn in sorted(prog.fns.items()):
-        if fn.crate != "rbx_dom_weak" or not fn.mir:
-            continue
-        muts = [m for m in D.field_mutations(fn) if m["field"] == U.F_PARENT and m["how"] == "assign"]
+    n = 0
+    for path, fn in sorted(U.api_fns(prog).items()):
+        allm = D.field_mutations(fn)
+        muts = [m for m in allm if m["field"] == U.F_PARENT and m["how"] == "assign"]
         if not muts:
             continue
-        if U.calls_in(fn, r"WeakDom::inner_(remove|insert)$"):
+        n += 1
+        if any(m["field"] == U.F_INSTANCES and U.classify(m["how"]) in ("structural:remove", "structural:insert") for m in allm):
             c.ok(R, f"cross-dom:{path}")
             continue
         # look for a loop that reads .parent
@@ -232,6 +312,9 @@ def rule_acyc(c, prog):
             c.ok(R, inst)
         else:
             c.violation(R, f"{path}|no-ancestor-guard", f"{path} re-parents within one DOM without checking that the new parent is not a descendant of the moved instance: `transfer_within(a, child_of_a)` makes `a` its own ancestor and detaches the subtree from the root", muts[0]["sp"], instance=inst)
+
+
+    c.floor(R, n, 2, "API functions assigning Instance.parent")
 
 
 def rule_iter(c, prog):
